@@ -112,6 +112,11 @@ def r_name_injective(ctx):
             continue
         # every enclosing loop contributes a hole (or the name carries a uuid)
         missing = []
+        if not any(ch.isalpha() for ch in lits) and not has_uuid:
+            # a name made of element names only carries no tag of its kind: it IS the full name of a constant that another
+            # template produces for an ordinary element (an indicator called `<task>_scheduled`, a task called `<worker>_busy`):
+            # one unlucky name is enough, and the two constants of different sorts share one SMT-LIB symbol
+            missing.append("a literal tag of its kind (the name is made of element names only)")
         for ev_ in evs:
             holes_ = [s[1] for s in template_of(ev_.data["name"]) if s[0] == "hole"]
             for l in ev_.loops:
@@ -490,3 +495,14 @@ def r_name_order(ctx):
 
 
 RULES.append(r_name_order)
+
+
+def r_rank_leak(ctx):
+    """an unscheduled optional task sits at start = end = -task_number, its rank in the order of declaration: a term that reads a
+    time of a possibly unscheduled task without the scheduled guard makes indicator and objective values depend on the order
+    in which the tasks were declared (R-SCHED-GUARD, shared with C06 - the recorded findings of that rule are findings here too)"""
+    from rules import optional
+    optional.r_sched_guard(ctx)
+
+
+RULES.append(r_rank_leak)
